@@ -29,15 +29,16 @@ fn drop_some(weights: &mut [(K, u32)], rng: &mut Rng, permille: u64) {
 /// the configuration of run number `run` of a check (`faulty`: with ghost faults)
 pub fn hist_cfg(prop: &str, run_seed: u64, thorough: bool) -> HistCfg {
     let mut rng = Rng::new(run_seed ^ 0x70F1_1E5);
-    let mut weights = if prop == "C12" { all_weights() } else { base_weights() };
+    let mut weights = if prop == "C12" || prop == "C15" { all_weights() } else { base_weights() };
     let mut stale = 40;
     let mut selfp = 20;
     let mut foreign = 40;
     let mut bad = 50;
-    let mut load_fault = 150;
+    // damaged documents are C11's and C12's business; the state properties load well-formed documents
+    let mut load_fault = 0;
     let mut abuse = 0;
     // which fault configuration: C12 never has faults; the others alternate
-    let ghost_on = prop == "C16" || (prop != "C12" && rng.chance(1, 2));
+    let ghost_on = prop == "C16" || (prop != "C12" && prop != "C15" && rng.chance(1, 2));
     match prop {
         "C03" => {
             stale = 150;
@@ -113,7 +114,7 @@ pub fn hist_cfg(prop: &str, run_seed: u64, thorough: bool) -> HistCfg {
         keep_trace: false,
         reload_every: if prop == "C10" { 1 } else { 0 },
         stop_at_first: true,
-        harvest_edges: false,
+        harvest_edges: prop == "C15",
         check_from: 0,
     }
 }
